@@ -22,10 +22,10 @@ WATCHDOG = {"quick": 900, "thorough": 3000}
 
 
 def cases(ctx):
-    for i in range(ctx.pick(300, 12000)):
+    for i in range(ctx.pick(300, 36000)):
         yield "history", {"seed": ctx.subseed("h", i)}
     algos = ["nsga2", "epsmoea", "omopso", "smpso", "psoga", "sweep", "scipy", "nlopt"]
-    for i in range(ctx.pick(48, 1600)):
+    for i in range(ctx.pick(48, 4800)):
         yield "run", {"seed": ctx.subseed("r", i), "algo": algos[i % len(algos)]}
 
 
